@@ -195,7 +195,34 @@ def jit_args(c):
           ks.append(kd(self.make_rng('noise')))
         return ks
     run = lambda: P().apply({}, rngs={'noise': jax.random.key(c['seed'])})
-  return {'runs': [fin(run()) for _ in range(c['applies'])]}
+  runs = [fin(run()) for _ in range(c['applies'])]
+  # roles of the draws, in the order the program makes them, and the keys an independent re-computation gives for them:
+  # root / own draw number n: fold(root, H(n)); sibling b outside: fold(root, H(b, n)); sibling b inside the transform: fold(fold(root, H(b)), H(n))
+  roles = []      # the per-scope call count starts at 1
+  if form == 'core':
+    roles.append(['root', 1])
+    roles += [['in', 'b%d' % i, j + 1] for i in range(nsib) for j in range(draws)]
+    roles += [['in', 'f%d' % i, j + 1] for i in range(nsib) for j in range(draws)]
+    roles.append(['root', 2])
+  else:
+    if c['own']:
+      roles.append(['root', 1])
+    roles += [['in', 'b%d' % i, j + 1] for i in range(nsib) for j in range(draws)]
+    roles += [['out', 'b%d' % i, draws + j + 1] for i in range(nsib) for j in range(draws)]
+    if c['own']:
+      roles.append(['root', 2])
+  root = jax.random.key(c['seed'])
+  fold = lambda k, suffix: jax.random.fold_in(k, jnp.uint32(LP.suffix_hash(suffix, False)))
+  want = []
+  for r in roles:
+    if r[0] == 'root':
+      k = fold(root, [r[1]])
+    elif r[0] == 'out':
+      k = fold(root, [r[1], r[2]])
+    else:
+      k = fold(fold(root, [r[1]]), [r[2]])
+    want.append([int(v) for v in np.asarray(jax.random.key_data(k)).reshape(-1)])
+  return {'runs': runs, 'roles': roles, 'recomputed': want}
 
 
 def bridge_keys(c):
